@@ -98,7 +98,7 @@ theorem pickOne_nil {g : Field} (hn : g.nullable = true)
   rw [← hn]; exact hi
 
 theorem exclAny_none {ext : Ext} {dt : DataType} (h : exclAny ext dt .none = false) : isUnionDT dt = false := by
-  simpa [exclAny, nullAtEnum, dateLookalike, u64AboveI64, dataLessNewtype, unitStructAtValue] using h
+  simpa [exclAny, nullAtEnum, dateLookalike, u64AboveI64, dataLessNewtype] using h
 
 /-! ### records -/
 
